@@ -22,7 +22,9 @@
 #include <cstring>
 #include <fcntl.h>
 #include <functional>
+#include <memory>
 #include <string>
+#include <thread>
 #include <unordered_set>
 #include <vector>
 
@@ -122,13 +124,31 @@ inline long futex(std::atomic<int>* addr, int op, int val) {
   return ::syscall(SYS_futex, reinterpret_cast<int*>(addr), op, val, nullptr,
                    nullptr, 0);
 }
+// Hand-offs spin for a bounded number of iterations before sleeping in the
+// kernel: a futex wake-up costs tens of microseconds, a spinning hand-off a
+// fraction of one.  VSCHED_SPIN=0 disables spinning (use when the machine is
+// oversubscribed).
+inline unsigned g_spin_iters = [] {
+  const char* e = std::getenv("VSCHED_SPIN");
+  return e ? static_cast<unsigned>(std::strtoul(e, nullptr, 10)) : 0U;
+}();
+inline std::atomic<int> g_sleepers{0};
+
 inline void futex_wait_while(std::atomic<int>& a, int v) {
-  while (a.load(std::memory_order_acquire) == v)
-    futex(&a, FUTEX_WAIT_PRIVATE, v);
+  for (unsigned i = 0; i < g_spin_iters; ++i) {
+    if (a.load(std::memory_order_acquire) != v) return;
+    __builtin_ia32_pause();
+  }
+  while (a.load(std::memory_order_seq_cst) == v) {
+    g_sleepers.fetch_add(1, std::memory_order_seq_cst);
+    if (a.load(std::memory_order_seq_cst) == v) futex(&a, FUTEX_WAIT_PRIVATE, v);
+    g_sleepers.fetch_sub(1, std::memory_order_seq_cst);
+  }
 }
 inline void futex_set_wake(std::atomic<int>& a, int v) {
-  a.store(v, std::memory_order_release);
-  futex(&a, FUTEX_WAKE_PRIVATE, INT_MAX);
+  a.store(v, std::memory_order_seq_cst);
+  if (g_sleepers.load(std::memory_order_seq_cst) != 0)
+    futex(&a, FUTEX_WAKE_PRIVATE, INT_MAX);
 }
 
 // ---------------------------------------------------------------------------
@@ -155,6 +175,9 @@ struct Worker {
   std::uint64_t last_yield_seq = 0;  // write_seq at the previous yield
   std::uint64_t acc_since_yield = 0;
   bool ever_yielded = false;
+  std::uint64_t cycle_hash = 0;             // observations since the last yield
+  std::uint64_t window_seq = 0;             // write_seq the list below belongs to
+  std::vector<std::uint64_t> seen_cycles;   // cycle hashes seen in this window
   // blocking wait
   std::function<bool()> block_pred;
   // pending CAS/RMW settle
@@ -246,6 +269,9 @@ class Scheduler {
       w.yield_seq = w.last_yield_seq = 0;
       w.acc_since_yield = 0;
       w.ever_yielded = false;
+      w.cycle_hash = 0;
+      w.window_seq = 0;
+      w.seen_cycles.clear();
       w.block_pred = nullptr;
       w.prev_addr = nullptr;
       w.priv.clear();
@@ -351,6 +377,7 @@ class Scheduler {
       if (on_invoke) on_invoke(w.id);
     }
     const std::uint64_t seen = raw_read(addr, size);
+    w.cycle_hash = mix(mix(mix(w.cycle_hash, hkind), a), seen);
     if (closure_mode) w.obs_hash = mix(mix(w.obs_hash, hkind), seen);
     if (hkind == HK_LOCK_CAS || hkind == HK_QSBR_RMW) {
       w.prev_addr = addr;
@@ -365,11 +392,25 @@ class Scheduler {
     settle(w);
     ++npoints;
     if (npoints > max_points) fatal(EXIT_LIVELOCK, "step budget exceeded");
+    // May the spinning thread continue at once?  Yes if anything was written
+    // since its previous yield, if it made no access since then (back-to-back
+    // back-off calls), or if what it observed since then differs from every
+    // observation cycle it already went through while nothing was written (a
+    // deterministic thread that repeats an observation cycle over an
+    // unchanged memory will repeat it forever).
+    if (w.window_seq != write_seq) {
+      w.window_seq = write_seq;
+      w.seen_cycles.clear();
+    }
+    bool repeated = false;
+    for (const auto h : w.seen_cycles) repeated = repeated || h == w.cycle_hash;
     const bool can_self = !w.ever_yielded || write_seq != w.last_yield_seq ||
-                          w.acc_since_yield == 0;
+                          w.acc_since_yield == 0 || !repeated;
+    if (w.acc_since_yield != 0 && !repeated) w.seen_cycles.push_back(w.cycle_hash);
     w.ever_yielded = true;
     w.last_yield_seq = write_seq;
     w.acc_since_yield = 0;
+    w.cycle_hash = 0;
     std::vector<int> opts;
     others_enabled_rr(w.id, opts);
     if (can_self) opts.push_back(w.id);
@@ -645,6 +686,52 @@ ExploreStats explore(unsigned bound, unsigned shard, unsigned nshards,
   }
   return st;
 }
+
+// ---------------------------------------------------------------------------
+// Persistent OS threads reused by every execution (creating threads per
+// execution is slow under AddressSanitizer, whose thread registry grows).
+class Pool {
+ public:
+  std::function<void(int)> body;  // runs in pool thread i, once per dispatch
+
+  void dispatch(int n) {
+    ensure(n);
+    idle.store(0, std::memory_order_release);
+    for (int i = 0; i < n; ++i) futex_set_wake(slots[static_cast<std::size_t>(i)]->job, 1);
+  }
+  void wait_idle(int n) {
+    for (;;) {
+      const int v = idle.load(std::memory_order_acquire);
+      if (v >= n) return;
+      futex_wait_while(idle, v);
+    }
+  }
+
+ private:
+  struct Slot {
+    std::atomic<int> job{0};
+  };
+  std::vector<std::unique_ptr<Slot>> slots;
+  std::atomic<int> idle{0};
+
+  void ensure(int n) {
+    while (static_cast<int>(slots.size()) < n) {
+      const int i = static_cast<int>(slots.size());
+      slots.push_back(std::make_unique<Slot>());
+      Slot* s = slots.back().get();
+      std::thread([this, s, i] {
+        for (;;) {
+          futex_wait_while(s->job, 0);
+          s->job.store(0, std::memory_order_relaxed);
+          body(i);
+          idle.fetch_add(1, std::memory_order_seq_cst);
+          if (g_sleepers.load(std::memory_order_seq_cst) != 0)
+            futex(&idle, FUTEX_WAKE_PRIVATE, INT_MAX);
+        }
+      }).detach();
+    }
+  }
+};
 
 inline std::string choices_to_string(const std::vector<PointRec>& tr) {
   std::string s;
